@@ -129,7 +129,23 @@ bool TcpAcceptor::stop()
 
 void TcpAcceptor::cleanup()
 {
-    CHECK_DELETE_RESET_OBJ(sp_read_ev_);
+    if (cb_level_ == 0) {
+        CHECK_DELETE_RESET_OBJ(sp_read_ev_);
+    } else if (sp_read_ev_ != nullptr) {
+        //! cleanup() 是在 new_conn_cb_ 回调中被调用的，也就是在 sp_read_ev_ 自己的回调中，
+        //! 此时不能直接销毁 sp_read_ev_，要延后释放
+        //! (called from inside the new-connection callback, that is from inside the callback of sp_read_ev_ itself:
+        //!  the event must not be destroyed here; disable it now and let the loop release it afterwards)
+        sp_read_ev_->disable();
+
+        event::FdEvent *tmp = nullptr;
+        std::swap(tmp, sp_read_ev_);
+
+        wp_loop_->runNext(
+            [tmp] { CHECK_DELETE_OBJ(tmp); },
+            "TcpAcceptor::cleanup, delete tmp"
+        );
+    }
     sock_fd_.close();
 
     //! 对于Unix Domain的Socket在退出的时候要删除对应的socket文件
